@@ -747,7 +747,8 @@ func (ex *Exec) callSSA(caller *Frame, callpos token.Pos, fn *ssa.Function, args
 		panic(abortPath{"budget", fmt.Sprintf("call depth above %d in %s", ex.cfg.MaxDepth, fn)})
 	}
 	fr := &Frame{ex: ex, th: th, caller: caller, fn: fn, depth: depth, callPos: callpos}
-	if in := ex.p.intrinsicFor(fn); in != nil && !(ex.p.stubSet["real-ipld"] && isIpldCodecStub(in.name)) {
+	if in := ex.p.intrinsicFor(fn); in != nil && !(ex.p.stubSet["real-ipld"] && isIpldCodecStub(in.name)) &&
+		!(ex.p.stubSet["real-peer-text"] && (strings.HasSuffix(in.name, "/peer.ID).String") || strings.HasSuffix(in.name, "/peer.Decode"))) {
 		ex.res.Stubs[in.name]++
 		if ex.cfg.Races {
 			if key := syncKeyOf(in.name, args); key != nil {
